@@ -161,6 +161,7 @@ func init() {
 		"(*strings.Builder).String":    extBuilderString,
 		"(*strings.Builder).copyCheck": func(fr *frame, a []value) value { return nil },
 
+		"errors.Is":        extErrorsIs,
 		"sort.Slice":       extSortSlice,
 		"sort.SliceStable": extSortSlice,
 		"reflect.Swapper":  extSwapper,
@@ -654,6 +655,9 @@ func callND(fr *frame, name string, args []value) value {
 		return ndRecovered(fr, args[0])
 	case "AnyMapOrder":
 		fr.i.mapOrderAny++
+		if fr.i.mapOrderAny == 1 {
+			fr.i.mapOrderEpoch++
+		}
 		defer func() { fr.i.mapOrderAny-- }()
 		call(fr.i, fr, fr.pos, args[0], nil)
 		return nil
@@ -770,12 +774,31 @@ func newMapIter(m *omap) iter {
 	if m == nil || curInterp == nil || curInterp.mapOrderAny == 0 || m.len() < 2 {
 		return it
 	}
-	// choose an iteration order by nd choices
+	// One arbitrary order per map object and AnyMapOrder region: the order is chosen
+	// (by nd choices) the first time the map is ranged over and reused afterwards;
+	// entries added later follow in insertion order.
 	var live []*mentry
 	for _, e := range m.entries {
 		if !e.deleted {
 			live = append(live, e)
 		}
+	}
+	if m.permEpoch == curInterp.mapOrderEpoch && m.perm != nil {
+		seen := map[*mentry]bool{}
+		var order []*mentry
+		for _, e := range m.perm {
+			if !e.deleted {
+				order = append(order, e)
+				seen[e] = true
+			}
+		}
+		for _, e := range live {
+			if !seen[e] {
+				order = append(order, e)
+			}
+		}
+		it.order = order
+		return it
 	}
 	n := len(live)
 	order := make([]*mentry, 0, n)
@@ -811,6 +834,8 @@ func newMapIter(m *omap) iter {
 			order = append(order, live[:k]...)
 		}
 	}
+	m.perm = order
+	m.permEpoch = curInterp.mapOrderEpoch
 	it.order = order
 	return it
 }
@@ -1116,4 +1141,47 @@ func deepEqTerm(t types.Type, x, y value, depth int) *Term {
 		return eqTerm(t, x, y)
 	}
 	return eqTerm(t, x, y)
+}
+
+// errors.Is without reflectlite: identity / Is(target) method / Unwrap chain.
+func extErrorsIs(fr *frame, a []value) value {
+	err, target := a[0].(iface), a[1].(iface)
+	if err.t == nil || target.t == nil {
+		return err.t == nil && target.t == nil
+	}
+	comparable := types.Comparable(target.t)
+	for depth := 0; depth < 64; depth++ {
+		if comparable && sameType(err.t, target.t) {
+			if cbool(mkVal(types.Bool, eqTerm(err.t, err.v, target.v))) {
+				return true
+			}
+		}
+		if m := fr.i.prog.LookupMethod(err.t, nil, "Is"); m != nil && m.Signature.Params().Len() == 1 && m.Signature.Results().Len() == 1 {
+			if cbool(callSSA(fr.i, fr, fr.pos, m, []value{err.v, target}, nil)) {
+				return true
+			}
+		}
+		m := fr.i.prog.LookupMethod(err.t, nil, "Unwrap")
+		if m == nil || m.Signature.Params().Len() != 0 || m.Signature.Results().Len() != 1 {
+			return false
+		}
+		res := callSSA(fr.i, fr, fr.pos, m, []value{err.v}, nil)
+		switch r := res.(type) {
+		case iface:
+			if r.t == nil {
+				return false
+			}
+			err = r
+		case []value: // Unwrap() []error
+			for _, e := range r {
+				if cbool(extErrorsIs(fr, []value{e, target})) {
+					return true
+				}
+			}
+			return false
+		default:
+			return false
+		}
+	}
+	return false
 }
